@@ -43,7 +43,9 @@ JudgeRemove(e) ==
       \o Fails(e, "RemoveOnlyNamed",
                Keys2(e.after) = db \/ (HasFormula(db, e.formula) /\ RemovedOne(db, Keys2(e.after))))
 
-Judge(e) ==
+Crashed(e) == IF "crashed" \in DOMAIN e /\ e.crashed # "" THEN << <<e.tid, e.step, "OperationDoesNotCrash">> >> ELSE <<>>
+
+Judge(e) == Crashed(e) \o
     CASE e.ev = "begin"  -> <<>>
       [] e.ev = "add"    -> JudgeAdd(e)
       [] e.ev = "bulk"   -> JudgeBulk(e)
